@@ -88,14 +88,21 @@ class C13(Check):
 
     def cases(self, rng, tier):
         n = 1200 if tier == 'quick' else 30000
-        out = [{'prog': ['L', 0, [';', ['Q', 1], ['R', 1]]], 'ans': []},
-               {'prog': ['L', 0, ['Q', 1]], 'ans': ['e']},
-               {'prog': ['L', 1, ['L', 0, ['R', 2]]], 'ans': ['o', 'w', 'o', 'e']}]
+        out = [{'prog': ['L', 0, [';', ['Q', 1], ['R', 1]]], 'ans': [], 'mode': 1},
+               {'prog': ['L', 0, ['Q', 1]], 'ans': ['e'], 'mode': 1},
+               {'prog': ['L', 1, ['L', 0, ['R', 2]]], 'ans': ['o', 'w', 'o', 'e'], 'mode': 1},
+               # the manager's own raise mode must not reach <lock>/<unlock>: warning-only answers under ALL, refusal under NONE
+               {'prog': ['L', 1, ['Q', 1]], 'ans': ['w', 'o', 'w'], 'mode': 2},
+               {'prog': ['L', 0, ['Q', 1]], 'ans': ['e'], 'mode': 0},
+               # nested contexts on different datastores
+               {'prog': ['L', 0, ['L', 1, ['Q', 1]]], 'ans': [], 'mode': 2},
+               {'prog': ['L', 0, ['L', 1, ['R', 1]]], 'ans': [], 'mode': 2}]
         for _ in range(n):
             p = gen_prog(rng)
             k = size(p) * 2
             ans = [rng.choice('ooooewwxy') for _ in range(rng.randint(0, k))]
-            out.append({'prog': p, 'ans': ans})
+            # the manager's raise mode: its default ALL most of the time (the mode users get), ERRORS, NONE
+            out.append({'prog': p, 'ans': ans, 'mode': rng.choice([2, 2, 1, 0])})
         return out
 
     def search(self, tier, rng, broken):
@@ -111,7 +118,7 @@ class C13(Check):
             seen.append(ev)
             a = case['ans'][len(seen) - 1] if len(seen) - 1 < len(case['ans']) else 'o'
             return reply(mid, a, ev)
-        m, s, dh = make_manager(responder=responder, raise_mode=1)       # body requests under ERRORS too
+        m, s, dh = make_manager(responder=responder, raise_mode=case.get('mode', 1))   # governs the body's own requests only
         exc = '-'
         try:
             execute(m, case['prog'])
@@ -126,7 +133,7 @@ class C13(Check):
 
     def model_lines(self, case):
         ans = ['e' if a in 'xy' else a for a in case['ans']]
-        return ['lk run %s %s' % (','.join(ans) or '_', ' '.join(tokens(case['prog'])))]
+        return ['lk run %s %s %s' % ({0: 'none', 1: 'errors', 2: 'all'}[case.get('mode', 1)], ','.join(ans) or '_', ' '.join(tokens(case['prog'])))]
 
     def model_obs(self, case, outs):
         t, x = outs[0].split(' ')
@@ -152,6 +159,50 @@ class C13(Check):
                 stack.pop()
         if stack:
             return ('C13:missing-unlock', 'lock(s) on %s never released: %s' % (stack, tr))
+        # the statement itself, read as a reference interpreter of the program (independent of the model): every `with m.locked(t)`
+        # that is reached sends <lock> for t before its body; refused -> no body, no unlock; granted -> body, then <unlock> for t once
+        exp, exc = [], [None]
+
+        def answer():
+            i = len(exp) - 1
+            return ans[i] if i < len(ans) else 'o'
+
+        def ref(p):
+            # returns True when an exception is propagating
+            if p[0] == 'S':
+                return False
+            if p[0] == 'Q':
+                exp.append('req:%d' % p[1])
+                a = answer()
+                mode = case.get('mode', 1)
+                raised = (mode == 2 and a != 'o') or (mode == 1 and a in 'exy')
+                if raised:
+                    exc[0] = 'rpc'
+                return raised
+            if p[0] == 'R':
+                exc[0] = 'body:%d' % p[1]
+                return True
+            if p[0] == ';':
+                return ref(p[1]) or ref(p[2])
+            exp.append('lock:%d' % p[1])
+            if answer() in 'exy':
+                exc[0] = 'rpc'
+                return True
+            r = ref(p[2])
+            exp.append('unlock:%d' % p[1])
+            if answer() in 'exy':
+                exc[0] = 'rpc'      # the statement is silent on a refused unlock; only the trace is checked then
+                return True
+            return r
+        ref(case['prog'])
+        if tr != exp:
+            k = next((i for i in range(min(len(tr), len(exp))) if tr[i] != exp[i]), min(len(tr), len(exp)))
+            return ('C13:trace-differs-from-statement', 'server saw %s, the statement requires %s (first difference at request %d; manager raise_mode=%s)'
+                    % (tr, exp, k, case.get('mode', 1)))
+        if exc[0] and exc[0].startswith('body:') and io['exc'] != exc[0]:
+            return ('C13:body-exception-not-propagated', 'the body raised %s, the caller saw %s' % (exc[0], io['exc']))
+        if exc[0] is None and io['exc'] != '-':
+            return ('C13:spurious-exception', 'nothing raised according to the statement, the caller saw %s' % io['exc'])
         # a refused lock must be the caller's exception and end the (innermost enclosing) progress: checked against the model by correspondence
         return None
 
